@@ -113,6 +113,9 @@ def run(ctx) -> None:
                     bad.append(txt)
     ctx.check(not bad, "C12.A5.modes-not-in-compilation", "MasterOfPuppets.__init__", ";".join(bad)[:160],
               "Yaml2Regex receives only the pattern path and the macro files")
+    # the pattern searched is the compiled rule itself, in every mode
+    from ._matchrules import searched_pattern_is_the_rule
+    searched_pattern_is_the_rule(ctx, "C12.A7.searched-pattern-is-the-rule")
 
 
 def _shape(expr: str) -> str:
